@@ -1588,7 +1588,9 @@ func (x *Explorer) doStore(s *ssa.Store, st *State) {
 				a = y.X
 				continue
 			case *ssa.Alloc:
-				if y.Parent() == x.Fn {
+				// (an object of the function the store is written in: the
+				// explored function or a helper walked through)
+				if y.Parent() == x.Fn || y.Parent() == s.Parent() {
 					localRoot = x.rn(y)
 				}
 			}
